@@ -1040,6 +1040,17 @@ func (e *engine) doCall(fr *frame, site ssa.Instruction, c *ssa.CallCommon, preF
 	for i, a := range args {
 		args[i] = e.filled(a)
 	}
+	// encoding/binary PutUintNN(dst, v): a write of the encoded integer into dst
+	if strings.HasPrefix(name, "(encoding/binary.") && strings.Contains(name, ").PutUint") && len(args) == 3 {
+		enc := "be"
+		if strings.Contains(name, "littleEndian") {
+			enc = "le"
+		}
+		src := &Term{Op: "call", Name: enc + strings.TrimPrefix(methodOf(name), "PutUint"), Args: []*Term{args[2]}}
+		e.copyInto(args[1], src)
+		cont(&Term{Op: "tuple"})
+		return
+	}
 	pure := isPure(name) || (e.o.PureFns != nil && e.o.PureFns(name))
 	callT := &Term{Op: "call", Name: name, Args: args, Typ: resT, Site: site}
 	if !pure {
@@ -1057,6 +1068,30 @@ func (e *engine) doCall(fr *frame, site ssa.Instruction, c *ssa.CallCommon, preF
 		return
 	}
 	e.afterOpaque(fr, ev, args, cont)
+}
+
+// copyInto models copy(dst, src) / PutUintNN(dst, v) on slices that alias a
+// local array or a made slice: copied(previous content, source, offset).
+func (e *engine) copyInto(dst, src *Term) {
+	if dst.Op == "slice" && dst.Plc != nil {
+		e.writePlace(dst.Plc, &Term{Op: "opaque", Name: "copied", Args: []*Term{e.load(dst.Plc, nil), src, orNil(dst.Off)}, Typ: dst.Plc.Typ})
+		return
+	}
+	base, lo := dst, (*Term)(nil)
+	if dst.Op == "slice" {
+		base, lo = dst.Args[0], dst.Args[1]
+	}
+	if base.Op == "filled" {
+		base = base.Args[0]
+	}
+	if base.Op == "make" && base.Name == "slice" {
+		root := &Term{Op: "deref", Args: []*Term{base}}
+		cur, ok := e.mem[rootKey(root)]
+		if !ok {
+			cur = &Term{Op: "zero", Typ: base.Typ}
+		}
+		e.setMem(rootKey(root), &Term{Op: "opaque", Name: "copied", Args: []*Term{cur, src, orNil(lo)}, Typ: base.Typ})
+	}
 }
 
 // filled: a made slice whose elements were written through index stores /
@@ -1078,12 +1113,26 @@ func (e *engine) filled(t *Term) *Term {
 			chain = append(chain, inner)
 			inner = inner.Args[0]
 		}
-		cur := &Term{Op: "slice", Args: []*Term{e.load(inner.Plc, nil), inner.Args[1], inner.Args[2], inner.Args[3]}, Plc: inner.Plc, Off: inner.Off, Typ: inner.Typ}
+		cur := &Term{Op: "slice", Args: []*Term{e.filled(e.load(inner.Plc, nil)), inner.Args[1], inner.Args[2], inner.Args[3]}, Plc: inner.Plc, Off: inner.Off, Typ: inner.Typ}
 		for i := len(chain) - 1; i >= 0; i-- {
 			c := chain[i]
 			cur = &Term{Op: "slice", Args: []*Term{cur, c.Args[1], c.Args[2], c.Args[3]}, Plc: c.Plc, Off: c.Off, Typ: c.Typ}
 		}
 		return cur
+	}
+	// varargs arrays / lists holding slices: refresh the elements
+	switch t.Op {
+	case "updidx":
+		b, v := e.filled(t.Args[0]), e.filled(t.Args[2])
+		if b != t.Args[0] || v != t.Args[2] {
+			return &Term{Op: "updidx", Args: []*Term{b, t.Args[1], v}, Typ: t.Typ}
+		}
+	case "slice":
+		if t.Plc == nil {
+			if b := e.filled(t.Args[0]); b != t.Args[0] {
+				return &Term{Op: "slice", Args: []*Term{b, t.Args[1], t.Args[2], t.Args[3]}, Typ: t.Typ}
+			}
+		}
 	}
 	return t
 }
@@ -1174,23 +1223,7 @@ func (e *engine) builtin(fr *frame, site ssa.Instruction, name string, args []*T
 	case "copy":
 		ct := &Term{Op: "call", Name: "builtin.copy", Args: args, ID: e.newID(), Typ: resT, Site: site}
 		e.emit(Event{Kind: EvCall, Call: ct, Res: ct, Instr: site, Fn: fr.fn, Depth: fr.depth})
-		if dst := args[0]; dst.Op == "slice" && dst.Plc != nil {
-			// write-through into a local array: copied(previous content, source, offset)
-			e.writePlace(dst.Plc, &Term{Op: "opaque", Name: "copied", Args: []*Term{e.load(dst.Plc, nil), e.filled(args[1]), orNil(dst.Off)}, Typ: dst.Plc.Typ})
-		} else {
-			base, lo := dst, (*Term)(nil)
-			if dst.Op == "slice" {
-				base, lo = dst.Args[0], dst.Args[1]
-			}
-			if base.Op == "make" && base.Name == "slice" {
-				root := &Term{Op: "deref", Args: []*Term{base}}
-				cur, ok := e.mem[rootKey(root)]
-				if !ok {
-					cur = root
-				}
-				e.setMem(rootKey(root), &Term{Op: "opaque", Name: "copied", Args: []*Term{cur, args[1], orNil(lo)}, Typ: base.Typ})
-			}
-		}
+		e.copyInto(args[0], e.filled(args[1]))
 		return ct
 	case "delete":
 		e.emit(Event{Kind: EvMapDelete, Place: args[0], Cond: args[1], Instr: site, Fn: fr.fn, Depth: fr.depth})
